@@ -6,11 +6,11 @@ pub mod ser {
     use core::fmt::{self, Display};
 
     #[derive(Debug)]
-    pub struct Err;
-    impl Display for Err { fn fmt(&self, _f: &mut fmt::Formatter<'_>) -> fmt::Result { Ok(()) } }
-    impl ser::StdError for Err {}
-    impl ser::Error for Err { fn custom<T: Display>(_m: T) -> Self { Err } }
-    impl de::Error for Err { fn custom<T: Display>(_m: T) -> Self { Err } }
+    pub struct SErr;
+    impl Display for SErr { fn fmt(&self, _f: &mut fmt::Formatter<'_>) -> fmt::Result { Ok(()) } }
+    impl ser::StdError for SErr {}
+    impl ser::Error for SErr { fn custom<T: Display>(_m: T) -> Self { SErr } }
+    impl de::Error for SErr { fn custom<T: Display>(_m: T) -> Self { SErr } }
 
     pub const CAP: usize = 18;
     #[derive(Clone, Copy)]
@@ -22,44 +22,45 @@ pub mod ser {
     pub struct Compound<'a>(pub &'a mut Rec);
     macro_rules! prim {
         ($($m:ident: $t:ty => $k:literal, $conv:expr);*) => {$(
-            fn $m(self, v: $t) -> Result<(), Err> { let f: fn($t) -> u64 = $conv; self.0.push($k, f(v)); Ok(()) }
+            fn $m(self, v: $t) -> Result<(), SErr> { let f: fn($t) -> u64 = $conv; self.0.push($k, f(v)); Ok(()) }
         )*};
     }
     impl<'a> ser::Serializer for S<'a> {
-        type Ok = (); type Error = Err;
-        type SerializeSeq = Impossible<(), Err>; type SerializeTuple = Compound<'a>; type SerializeTupleStruct = Compound<'a>;
-        type SerializeTupleVariant = Impossible<(), Err>; type SerializeMap = Impossible<(), Err>; type SerializeStruct = Impossible<(), Err>; type SerializeStructVariant = Impossible<(), Err>;
+        type Ok = (); type Error = SErr;
+        type SerializeSeq = Impossible<(), SErr>; type SerializeTuple = Compound<'a>; type SerializeTupleStruct = Compound<'a>;
+        type SerializeTupleVariant = Impossible<(), SErr>; type SerializeMap = Impossible<(), SErr>; type SerializeStruct = Impossible<(), SErr>; type SerializeStructVariant = Impossible<(), SErr>;
         prim!(serialize_bool: bool => 1, |v| v as u64; serialize_i8: i8 => 2, |v| v as u8 as u64; serialize_i16: i16 => 3, |v| v as u16 as u64; serialize_i32: i32 => 4, |v| v as u32 as u64;
               serialize_i64: i64 => 5, |v| v as u64; serialize_u8: u8 => 6, |v| v as u64; serialize_u16: u16 => 7, |v| v as u64; serialize_u32: u32 => 8, |v| v as u64; serialize_u64: u64 => 9, |v| v;
               serialize_f32: f32 => 10, |v| v.to_bits() as u64; serialize_f64: f64 => 11, |v| v.to_bits());
-        fn serialize_char(self, _v: char) -> Result<(), Err> { Err(Err) }
-        fn serialize_str(self, _v: &str) -> Result<(), Err> { Err(Err) }
-        fn serialize_bytes(self, _v: &[u8]) -> Result<(), Err> { Err(Err) }
-        fn serialize_none(self) -> Result<(), Err> { Err(Err) }
-        fn serialize_some<T: ?Sized + Serialize>(self, _v: &T) -> Result<(), Err> { Err(Err) }
-        fn serialize_unit(self) -> Result<(), Err> { Err(Err) }
-        fn serialize_unit_struct(self, _n: &'static str) -> Result<(), Err> { Err(Err) }
-        fn serialize_unit_variant(self, _n: &'static str, _i: u32, _v: &'static str) -> Result<(), Err> { Err(Err) }
-        fn serialize_newtype_struct<T: ?Sized + Serialize>(self, _n: &'static str, _v: &T) -> Result<(), Err> { Err(Err) }
-        fn serialize_newtype_variant<T: ?Sized + Serialize>(self, _n: &'static str, _i: u32, _v: &'static str, _x: &T) -> Result<(), Err> { Err(Err) }
-        fn serialize_seq(self, _l: Option<usize>) -> Result<Self::SerializeSeq, Err> { Err(Err) }
-        fn serialize_tuple(self, l: usize) -> Result<Compound<'a>, Err> { self.0.declared = l; self.0.shape = 2; Ok(Compound(self.0)) }
-        fn serialize_tuple_struct(self, n: &'static str, l: usize) -> Result<Compound<'a>, Err> { self.0.declared = l; self.0.shape = 1; self.0.name_len = n.len(); Ok(Compound(self.0)) }
-        fn serialize_tuple_variant(self, _n: &'static str, _i: u32, _v: &'static str, _l: usize) -> Result<Self::SerializeTupleVariant, Err> { Err(Err) }
-        fn serialize_map(self, _l: Option<usize>) -> Result<Self::SerializeMap, Err> { Err(Err) }
-        fn serialize_struct(self, _n: &'static str, _l: usize) -> Result<Self::SerializeStruct, Err> { Err(Err) }
-        fn serialize_struct_variant(self, _n: &'static str, _i: u32, _v: &'static str, _l: usize) -> Result<Self::SerializeStructVariant, Err> { Err(Err) }
+        fn serialize_char(self, _v: char) -> Result<(), SErr> { Err(SErr) }
+        fn serialize_str(self, _v: &str) -> Result<(), SErr> { Err(SErr) }
+        fn serialize_bytes(self, _v: &[u8]) -> Result<(), SErr> { Err(SErr) }
+        fn serialize_none(self) -> Result<(), SErr> { Err(SErr) }
+        fn serialize_some<T: ?Sized + Serialize>(self, _v: &T) -> Result<(), SErr> { Err(SErr) }
+        fn serialize_unit(self) -> Result<(), SErr> { Err(SErr) }
+        fn serialize_unit_struct(self, _n: &'static str) -> Result<(), SErr> { Err(SErr) }
+        fn serialize_unit_variant(self, _n: &'static str, _i: u32, _v: &'static str) -> Result<(), SErr> { Err(SErr) }
+        fn serialize_newtype_struct<T: ?Sized + Serialize>(self, _n: &'static str, _v: &T) -> Result<(), SErr> { Err(SErr) }
+        fn serialize_newtype_variant<T: ?Sized + Serialize>(self, _n: &'static str, _i: u32, _v: &'static str, _x: &T) -> Result<(), SErr> { Err(SErr) }
+        fn serialize_seq(self, _l: Option<usize>) -> Result<Self::SerializeSeq, SErr> { Err(SErr) }
+        fn serialize_tuple(self, l: usize) -> Result<Compound<'a>, SErr> { self.0.declared = l; self.0.shape = 2; Ok(Compound(self.0)) }
+        fn serialize_tuple_struct(self, n: &'static str, l: usize) -> Result<Compound<'a>, SErr> { self.0.declared = l; self.0.shape = 1; self.0.name_len = n.len(); Ok(Compound(self.0)) }
+        fn serialize_tuple_variant(self, _n: &'static str, _i: u32, _v: &'static str, _l: usize) -> Result<Self::SerializeTupleVariant, SErr> { Err(SErr) }
+        fn serialize_map(self, _l: Option<usize>) -> Result<Self::SerializeMap, SErr> { Err(SErr) }
+        fn serialize_struct(self, _n: &'static str, _l: usize) -> Result<Self::SerializeStruct, SErr> { Err(SErr) }
+        fn serialize_struct_variant(self, _n: &'static str, _i: u32, _v: &'static str, _l: usize) -> Result<Self::SerializeStructVariant, SErr> { Err(SErr) }
+        fn collect_str<T: ?Sized + Display>(self, _v: &T) -> Result<(), SErr> { Err(SErr) }
         fn is_human_readable(&self) -> bool { false }
     }
     impl<'a> ser::SerializeTupleStruct for Compound<'a> {
-        type Ok = (); type Error = Err;
-        fn serialize_field<T: ?Sized + Serialize>(&mut self, v: &T) -> Result<(), Err> { v.serialize(S(self.0)) }
-        fn end(self) -> Result<(), Err> { Ok(()) }
+        type Ok = (); type Error = SErr;
+        fn serialize_field<T: ?Sized + Serialize>(&mut self, v: &T) -> Result<(), SErr> { v.serialize(S(self.0)) }
+        fn end(self) -> Result<(), SErr> { Ok(()) }
     }
     impl<'a> ser::SerializeTuple for Compound<'a> {
-        type Ok = (); type Error = Err;
-        fn serialize_element<T: ?Sized + Serialize>(&mut self, v: &T) -> Result<(), Err> { v.serialize(S(self.0)) }
-        fn end(self) -> Result<(), Err> { Ok(()) }
+        type Ok = (); type Error = SErr;
+        fn serialize_element<T: ?Sized + Serialize>(&mut self, v: &T) -> Result<(), SErr> { v.serialize(S(self.0)) }
+        fn end(self) -> Result<(), SErr> { Ok(()) }
     }
 
     // ---- deserializer over a recorded sequence of `len` elements
@@ -67,15 +68,15 @@ pub mod ser {
     pub struct Seq<'a> { rec: &'a Rec, len: usize, pos: usize }
     pub struct Elem { kind: u8, bits: u64 }
     impl<'de, 'a> de::Deserializer<'de> for D<'a> {
-        type Error = Err;
-        fn deserialize_any<V: Visitor<'de>>(self, v: V) -> Result<V::Value, Err> { v.visit_seq(Seq { rec: self.rec, len: self.len, pos: 0 }) }
-        fn deserialize_tuple_struct<V: Visitor<'de>>(self, _n: &'static str, _l: usize, v: V) -> Result<V::Value, Err> { v.visit_seq(Seq { rec: self.rec, len: self.len, pos: 0 }) }
-        fn deserialize_tuple<V: Visitor<'de>>(self, _l: usize, v: V) -> Result<V::Value, Err> { v.visit_seq(Seq { rec: self.rec, len: self.len, pos: 0 }) }
+        type Error = SErr;
+        fn deserialize_any<V: Visitor<'de>>(self, v: V) -> Result<V::Value, SErr> { v.visit_seq(Seq { rec: self.rec, len: self.len, pos: 0 }) }
+        fn deserialize_tuple_struct<V: Visitor<'de>>(self, _n: &'static str, _l: usize, v: V) -> Result<V::Value, SErr> { v.visit_seq(Seq { rec: self.rec, len: self.len, pos: 0 }) }
+        fn deserialize_tuple<V: Visitor<'de>>(self, _l: usize, v: V) -> Result<V::Value, SErr> { v.visit_seq(Seq { rec: self.rec, len: self.len, pos: 0 }) }
         serde::forward_to_deserialize_any! { bool i8 i16 i32 i64 u8 u16 u32 u64 f32 f64 char str string bytes byte_buf option unit unit_struct newtype_struct seq map struct enum identifier ignored_any }
     }
     impl<'de, 'a> de::SeqAccess<'de> for Seq<'a> {
-        type Error = Err;
-        fn next_element_seed<T: DeserializeSeed<'de>>(&mut self, seed: T) -> Result<Option<T::Value>, Err> {
+        type Error = SErr;
+        fn next_element_seed<T: DeserializeSeed<'de>>(&mut self, seed: T) -> Result<Option<T::Value>, SErr> {
             if self.pos >= self.len || self.pos >= CAP { return Ok(None); }
             let e = Elem { kind: self.rec.kind[self.pos], bits: self.rec.bits[self.pos] };
             self.pos += 1;
@@ -83,12 +84,12 @@ pub mod ser {
         }
     }
     impl<'de> de::Deserializer<'de> for Elem {
-        type Error = Err;
-        fn deserialize_any<V: Visitor<'de>>(self, v: V) -> Result<V::Value, Err> {
+        type Error = SErr;
+        fn deserialize_any<V: Visitor<'de>>(self, v: V) -> Result<V::Value, SErr> {
             match self.kind {
                 1 => v.visit_bool(self.bits != 0), 2 => v.visit_i8(self.bits as u8 as i8), 3 => v.visit_i16(self.bits as u16 as i16), 4 => v.visit_i32(self.bits as u32 as i32),
                 5 => v.visit_i64(self.bits as i64), 6 => v.visit_u8(self.bits as u8), 7 => v.visit_u16(self.bits as u16), 8 => v.visit_u32(self.bits as u32), 9 => v.visit_u64(self.bits),
-                10 => v.visit_f32(f32::from_bits(self.bits as u32)), 11 => v.visit_f64(f64::from_bits(self.bits)), _ => Err(Err),
+                10 => v.visit_f32(f32::from_bits(self.bits as u32)), 11 => v.visit_f64(f64::from_bits(self.bits)), _ => Err(SErr),
             }
         }
         serde::forward_to_deserialize_any! { bool i8 i16 i32 i64 u8 u16 u32 u64 f32 f64 char str string bytes byte_buf option unit unit_struct newtype_struct seq tuple tuple_struct map struct enum identifier ignored_any }
